@@ -397,6 +397,12 @@ Section Field.
 
   Definition not_set (v : pyval) : bool := match v with PSet _ _ => false | _ => true end.
 
+  (* the input-type guard, on the one kind of input where source and hand-written model part: a frozenset is not an
+     instance of (list, tuple, set) *)
+  Lemma list_like_frozenset_rejected (R : recs) fo ct l name kuv mapper camel :
+    src_deserialize_list_like h ext R fo ct (PSet true l) name kuv mapper camel = Raise ValueError.
+  Proof. reflexivity. Qed.
+
   Lemma fld_is_field g : cls_isinstance tbl (fld_py g) [s2p "Field"] = Ok true.
   Proof.
     destruct g as [k s c|c| | | |vs|cls ms|k sz u|k g sz u|k fs sz u a|imm [g|] sz|fs u|sz|kf vf sz|fs|fs|fs|fs|cn];
@@ -2354,6 +2360,7 @@ Print Assumptions loop2_eq.
 Print Assumptions list_like_each.
 Print Assumptions list_like_pos.
 Print Assumptions list_like_plain.
+Print Assumptions list_like_frozenset_rejected.
 Print Assumptions multi_loop_eq.
 Print Assumptions multifield_eq.
 Print Assumptions map_kv_eq.
